@@ -502,7 +502,9 @@ func runSessionReplaceCase(packets int, through float64) (string, []finding, str
 	var fs []finding
 	gotSmall, n := 0, 0
 	bigWire, smallWire := mustMarshal(&lib.StringWrapper{Value: string(big.payload)}), mustMarshal(&lib.StringWrapper{Value: string(small.payload)})
-	deadline := time.After(2500 * time.Millisecond)
+	// wait for the follow-up message (up to 15 s: a loaded machine must not turn into "not delivered"), then 1.5 s more for
+	// whatever else the new session delivers
+	deadline := time.After(15 * time.Second)
 	for done := false; !done; {
 		select {
 		case m := <-D2.p.Inbox(lib.Topic_BLOCK):
@@ -510,6 +512,9 @@ func runSessionReplaceCase(packets int, through float64) (string, []finding, str
 			got := m.Message
 			switch {
 			case bytes.Equal(got, smallWire):
+				if gotSmall == 0 {
+					deadline = time.After(1500 * time.Millisecond)
+				}
 				gotSmall++
 			case bytes.Equal(got, bigWire):
 			default:
